@@ -43,6 +43,7 @@ TRUSTED = [
     ("N-norm", "numpy.linalg.norm(a) without axis = sqrt of the sum of ALL squared entries (one scalar); with axis=1 on an (n,3) array the n row norms; the norm is a function of its argument and |a - b| = |b - a|"),
     ("N-argmin", "numpy.argmin of a scalar is 0; of a 1-D array the first index of a minimal entry"),
     ("N-broadcast", "array - vector subtracts the vector from every row; scalar * array scales every entry; array[i] is row i"),
+    ("E-earcut", "mapbox_earcut.triangulate_float64(vertices, rings) -- vertices = the polygon's rings one after the other (each without its closing point), rings = the cumulative end offsets, exterior first -- returns 3k indices into `vertices`: the k = n + 2h - 2 triangles (vertices[i0], vertices[i1], vertices[i2]) lie inside the polygon, overlap only in edges and their union is the polygon (their areas sum to its area)"),
     ("T-ray", "mesh.ray.intersects_location(origins, directions, multiple_hits=False) returns the first hit of each ray that hits the mesh, in the order of the rays; a hit of ray (o, d) is o + t d with t >= 0"),
     ("N-reduce", "numpy.all / any / max reduce over all entries; array > scalar compares entry-wise; ndarray - Vector converts the Vector to a length-3 array and broadcasts"),
     ("T-bounds", "every point of a trimesh mesh lies within mesh.bounds; extents = bounds[1] - bounds[0]; bounding_box.center_mass is the midpoint of the bounds"),
@@ -312,6 +313,44 @@ def disc_geom(I, cx, cy, radius, tag="disc"):
     return g
 
 
+def tri_geom(I, pts):
+    """shapely Polygon built from three coordinate pairs: the closed triangle (exact membership by the three edge tests)."""
+    (ax, ay), (bx, by), (cx, cy) = [(p[0], p[1]) for p in pts]
+
+    def cross(px, py, qx, qy, x, y):  # (q - p) x ((x, y) - p)
+        return arith("-", arith("*", arith("-", qx, px), arith("-", y, py)), arith("*", arith("-", qy, py), arith("-", x, px)))
+
+    def mem(x, y):
+        d1, d2, d3 = cross(ax, ay, bx, by, x, y), cross(bx, by, cx, cy, x, y), cross(cx, cy, ax, ay, x, y)
+        nonneg = sv_and(compare(">=", d1, 0), compare(">=", d2, 0), compare(">=", d3, 0))
+        nonpos = sv_and(compare("<=", d1, 0), compare("<=", d2, 0), compare("<=", d3, 0))
+        return sv_or(nonneg, nonpos)
+
+    twice = cross(ax, ay, bx, by, cx, cy)
+    area = arith("/", sv_ite(compare(">=", twice, 0), twice, arith("-", 0, twice)), 2)
+    g = make_geom(I, "Polygon", mem=mem, empty=False, tag="triangle", area=area)
+    g.fields["_tri"] = ((ax, ay), (bx, by), (cx, cy))
+    g.fields["bounds"] = (BM.mmin(I, ax, bx, cx), BM.mmin(I, ay, by, cy), BM.mmax(I, ax, bx, cx), BM.mmax(I, ay, by, cy))
+    return g
+
+
+def ring_polygon(I, exterior, holes=(), tag="polygon"):
+    """shapely Polygon given by its rings (lists of coordinate pairs, not closed): an abstract point set with
+    `.exterior.coords` / `.interiors[i].coords` (closed coordinate sequences, as shapely reports them)."""
+    g = make_geom(I, "Polygon", empty=False, tag=tag)
+
+    def ring(pts, name):
+        r = PObj("LinearRing", tag=f"{g.tag}.{name}")
+        pts = [tuple(p) for p in pts]
+        r.fields["coords"] = tuple(pts + [pts[0]])
+        return r
+
+    g.fields["exterior"] = ring(exterior, "exterior")
+    g.fields["interiors"] = PList([ring(h, f"interior{i}") for i, h in enumerate(holes)])
+    g.fields["_rings"] = ([tuple(p) for p in exterior], [[tuple(p) for p in h] for h in holes])
+    return g
+
+
 def _forms_for(da, db):
     lo = min(da, db)
     if lo == 2:
@@ -570,6 +609,16 @@ def _make_shapely(I):
         world(I).add_point(x, y)
         return gmem(g, x, y)
 
+    def polygons(coords, *rest, **kw):
+        """shapely.polygons(array of coordinate arrays): one Polygon per entry (here: triangles)"""
+        out = []
+        for c in BM.iterate(I, coords):
+            A = to_ndarr(I, c)
+            if A.shape != (3, 2):
+                raise PyvcError("shapely.polygons: only triangles (3 x 2 coordinate arrays) are modelled")
+            out.append(tri_geom(I, A.data))
+        return PList(out)
+
     def points(coords, *rest):
         if rest:
             coords = (coords,) + tuple(rest)
@@ -583,6 +632,7 @@ def _make_shapely(I):
         "distance": BuiltinFn("distance", s_distance),
         "intersects_xy": BuiltinFn("intersects_xy", intersects_xy),
         "points": BuiltinFn("points", points),
+        "polygons": BuiltinFn("polygons", polygons),
         "unary_union": BuiltinFn("unary_union", unary_union),
     }
     for k in DIM:
@@ -711,10 +761,26 @@ class NDArr:
         if isinstance(idx, tuple):
             if len(idx) == 1:
                 return self.getitem(I, idx[0])
+            if len(idx) == 2 and len(self.shape) == 2 and isinstance(idx[0], slice) and isinstance(idx[1], slice):
+                rows = self.data[idx[0]]
+                rows = [list(r[idx[1]]) for r in rows]
+                return NDArr((len(rows), len(rows[0]) if rows else len(range(self.shape[1])[idx[1]])), rows)
             if len(idx) == 2 and len(self.shape) == 2:
                 row = self.getitem(I, idx[0])
                 return row.getitem(I, idx[1])
             raise PyvcError("numpy multi-dimensional indexing form not modelled")
+        if isinstance(idx, slice):
+            if any(isinstance(x, SV) for x in (idx.start, idx.stop, idx.step)):
+                raise PyvcError("symbolic slice of a numpy array not modelled")
+            rows = self.data[idx]
+            return NDArr((len(rows),) + self.shape[1:], [list(r) if isinstance(r, list) else r for r in rows])
+        if isinstance(idx, (PList, list, NDArr)):
+            # integer-array indexing: result[j] = self[idx[j]]
+            ks = idx.data if isinstance(idx, NDArr) else (idx.items if isinstance(idx, PList) else idx)
+            out = [self.getitem(I, k) for k in ks]
+            if len(self.shape) == 1:
+                return NDArr((len(out),), out)
+            return NDArr((len(out),) + self.shape[1:], [list(r.data) for r in out])
         if isinstance(idx, SV):
             j = BM.norm_index(I, idx, n)
             if n == 0:
@@ -911,6 +977,16 @@ def _make_numpy(I):
             I.raise_("ValueError", "zero-size array to reduction operation maximum which has no identity")
         return BM.mmax(I, *flat) if len(flat) > 1 else flat[0]
 
+    def np_split(a, sections, axis=0):
+        A = to_ndarr(I, a)
+        if isinstance(sections, SV):
+            raise PyvcError("numpy.split into a symbolic number of sections not modelled")
+        n = int(sections)
+        if n <= 0 or not A.shape or A.shape[0] % n:
+            I.raise_("ValueError", "array split does not result in an equal division")
+        step = A.shape[0] // n
+        return PList([NDArr((step,) + A.shape[1:], [list(r) if isinstance(r, list) else r for r in A.data[j * step : (j + 1) * step]]) for j in range(n)])
+
     linalg = NativeModule("numpy.linalg", {"norm": BuiltinFn("numpy.linalg.norm", norm)})
     nd = BuiltinFn("numpy.ndarray", lambda *a, **k: (_ for _ in ()).throw(PyvcError("numpy.ndarray() not modelled")))
     nd.pytype = NDArr
@@ -923,6 +999,8 @@ def _make_numpy(I):
             "argmin": BuiltinFn("numpy.argmin", argmin),
             "amin": BuiltinFn("numpy.amin", amin),
             "amax": BuiltinFn("numpy.amax", amax),
+            "split": BuiltinFn("numpy.split", np_split),
+            "float64": float,
             "all": BuiltinFn("numpy.all", np_all),
             "any": BuiltinFn("numpy.any", np_any),
             "max": BuiltinFn("numpy.max", np_max),
@@ -1033,3 +1111,30 @@ def _make_fcl(I):
 
 
 EXTRA_MODULES.setdefault("fcl", _make_fcl)
+
+
+# ------------------------------------------------------------------------------------------------
+# mapbox_earcut (trusted triangulation kernel, E-earcut)
+
+
+def _make_earcut(I):
+    def triangulate_float64(vertices, rings):
+        eng = I.eng
+        V, R = to_ndarr(I, vertices), to_ndarr(I, rings)
+        if len(V.shape) != 2 or V.shape[1] != 2 or len(R.shape) != 1:
+            I.raise_("ValueError", "triangulate_float64: vertices must be n x 2 and rings 1-dimensional")
+        n, h = V.shape[0], R.shape[0] - 1
+        k = max(n + 2 * h - 2, 0)
+        idx = []
+        for j in range(3 * k):
+            v = eng.fresh_int(f"earcut.index{j}")
+            eng.assume(sv_and(compare("<=", 0, v), compare("<", v, n)))
+            idx.append(v)
+        res = NDArr((3 * k,), idx)
+        world(I).__dict__.setdefault("earcut_calls", []).append(dict(vertices=V, rings=R, result=res))
+        return res
+
+    return NativeModule("mapbox_earcut", {"triangulate_float64": BuiltinFn("mapbox_earcut.triangulate_float64", triangulate_float64)})
+
+
+EXTRA_MODULES["mapbox_earcut"] = _make_earcut
